@@ -127,7 +127,11 @@ def api_search(chk, n_cases):
         n = rng.randint(3, 5)
         start = rng.choice([0.0, 1.3])
         dkmax = rng.choice([None, 1, 2, n])
-        tau = rng.choice([None, None, 0.15, np.inf]) if dkmax is not None else None
+        tau = rng.choice([None, None, 0.15, np.inf, 0.0, 0.05]) if dkmax is not None else None
+        if it == 6:
+            # every run: a memory cut-off shorter than the run with an additional correlation time SHORTER than a time step
+            # (0.0 included): the first closing cell of TEMPO (one step wide at most) and of PT-TEMPO must still coincide
+            dt, n, dkmax, tau = 0.2, 6, rng.choice([1, 2]), rng.choice([0.0, 0.05, 0.1])
         par = oqupy.TempoParameters(dt=dt, epsrel=eps, dkmax=dkmax, add_correlation_time=tau, subdiv_limit=None)
         corr = oqupy.PowerLawSD(alpha=rng.choice([0.05, 0.3]), zeta=rng.choice([1, 3]), cutoff=rng.choice([1.0, 4.0]),
                                 cutoff_type=rng.choice(["exponential", "gaussian"]), temperature=rng.choice([0.0, 0.5]))
